@@ -118,19 +118,21 @@ def run_program(prog, case, nt, minimal=False):
     from compmec.nurbs import Curve, Function, Integrate
 
     U, P, W, _ = cv.dec_curve(case["A"])
-    nodes = [lib.num(x, nt) for x in lib.dec(case["nodes"])]
+    nodes = [lib.num(x, "frac" if nt == "fracint" else nt) for x in lib.dec(case["nodes"])]
     t = case["t"]
+
+    knt = "frac" if nt == "fracint" else nt  # knots and parameters of the int-point exact class stay Fractions
 
     def body():
         if minimal:
-            A = Curve(lib.nums(U, nt), [Pt(lib.num(c, nt) for c in pt) for pt in P])
+            A = Curve(lib.nums(U, knt), [Pt(lib.num(c, nt) for c in pt) for pt in P])
         else:
             A = lib.mk_curve(U, P, W, nt)
-        params = [lib.num(x, nt) for x in lib.dec(case["params"])]
+        params = [lib.num(x, knt) for x in lib.dec(case["params"])]
         if prog == "eval":
             return [A(u) for u in params] + [A.eval(params)]
         if prog == "basis":
-            f = Function(lib.nums(U, nt))
+            f = Function(lib.nums(U, knt))
             return [f[:, j](u) for j in range(A.degree + 1) for u in params]
         if prog == "insert":
             A.knot_insert(nodes)
@@ -165,13 +167,13 @@ def run_program(prog, case, nt, minimal=False):
         if prog == "div":
             return A / Bc
         if prog == "fit_curve":
-            S = Curve(lib.nums(UB, nt))
+            S = Curve(lib.nums(UB, knt))
             err = S.fit_curve(A)
             return [S, err]
         if prog == "fit_points":
-            zs = [lib.num(x, nt) for x in lib.dec(case["fitnodes"])]
+            zs = [lib.num(x, knt) for x in lib.dec(case["fitnodes"])]
             pts = [lib.num(F(i * i - 3, 2), nt) for i in range(len(zs))]
-            S = Curve(lib.nums(U, nt))
+            S = Curve(lib.nums(U, knt))
             S.fit_points(pts, zs)
             return S
         if prog == "integrate":
@@ -262,6 +264,17 @@ def run_case(case, ctx):
                 ctx.check(ref.fr(exact_res) == payload, f"exact:wrong:{prog}:{cls}", f"integral {exact_res} != {payload}")
         except Exception as e:
             ctx.check(False, f"exact:malformed:{prog}", f"{prog}: exact result cannot be interpreted: {e!r}")
+    # the other exact class of the statement: Fraction knots with Python *int* control points and weights
+    if not minimal and bad is None:
+        o2 = run_program(prog, case, "fracint")
+        ctx.count("int_point_runs")
+        if ctx.check(o2.ok, f"exact:raises:{prog}:{o2.exc_name}:int-points", f"{prog} with Fraction knots and int points / weights raised {o2.brief()}"):
+            n2 = flat(o2.value, [])
+            b2 = next((x for x in n2 if x is not None and not lib.is_exact_number(x)), None)
+            ctx.check(b2 is None, f"exact:float-introduced:{prog}:int-points", f"{prog} on Fraction knots with int control points / weights returned a {type(b2).__name__} ({b2!r})")
+            if b2 is None:
+                ctx.check(len(n2) == len(nums) and all((x is None and y is None) or (x is not None and y is not None and ref.fr(x) == ref.fr(y)) for x, y in zip(n2, nums)),
+                          f"exact:int-vs-fraction:{prog}", f"{prog}: int control points / weights give other values than the same numbers as Fractions")
     if minimal or cls == "big":
         return
     # ---------------- other representations
